@@ -287,7 +287,7 @@ _c11 = PROPS["C11"]["shards"]
 PROPS["C11"]["shards"] = lambda tier, seed, search=False: _c11(tier, seed, search) + concstore_shards(tier, seed, search, props=("C11",))[:3]
 PROPS["C16"]["race"] = True
 _c16 = PROPS["C16"]["shards"]
-PROPS["C16"]["shards"] = lambda tier, seed, search=False: _c16(tier, seed, search) + concstore_shards(tier, seed, search, props=("C16",))[:2]
+PROPS["C16"]["shards"] = lambda tier, seed, search=False: _c16(tier, seed, search) + concstore_shards(tier, seed, search, props=("C16",))[:5]
 PROPS["C11"]["rule"] = STORE_RULE + "; plus the concurrent store family: two explicit refreshes and a background tick started together while the service is held - at most one conditional request may be waiting at any time (coalescing)"
 
 _c10 = PROPS["C10"]["shards"]
@@ -330,3 +330,16 @@ for _pid in ("C13", "C19"):
     PROPS[_pid]["race"] = True
     PROPS[_pid]["shards"] = (lambda old, _p=_pid: (lambda tier, seed, search=False: old(tier, seed, search) + concstore_shards(tier, seed, search, props=(_p,))[:3]))(PROPS[_pid]["shards"])
     PROPS[_pid]["rule"] = PROPS[_pid]["rule"] + "; plus the concurrent store family (with everything settled the cache document is the store's current state)"
+
+for _pid in ("C11", "C19"):
+    PROPS[_pid]["shards"] = (lambda old: (lambda tier, seed, search=False: old(tier, seed, search) + fs_shards(["cachewide"])))(PROPS[_pid]["shards"])
+    PROPS[_pid]["rule"] = PROPS[_pid]["rule"] + "; plus FileCache.Write traced over a longer, wide-mode file (the file must end up exactly the document written)"
+
+_c12f = PROPS["C12"]["shards"]
+PROPS["C12"]["shards"] = lambda tier, seed, search=False: _c12f(tier, seed, search) + fields_shards(tier, seed, search)[:2]
+PROPS["C12"]["rule"] = PROPS["C12"]["rule"] + "; plus the struct-tag family (a handle's bytes are not disturbed by writes to a populated []byte field)"
+
+PROPS["C02"]["race"] = True
+PROPS["C02"]["shards"] = (lambda old: (lambda tier, seed, search=False: old(tier, seed, search) + [
+    Shard(sh.family, sh.args, driver=sh.driver, binary=sh.binary, race_props=[]) for sh in conc_shards(tier, seed, search)[:3]]))(PROPS["C02"]["shards"])
+PROPS["C02"]["rule"] = PROPS["C02"]["rule"] + "; plus the concurrent family (several callers putting the very same bytes under one name at once are all told the same version number)"
